@@ -337,7 +337,7 @@ def s1_batches(ctx, opts, skip_collide=False):
             Batch(G_N3_ALL_WF, ['subdir', 'remote'], opts[:1], [sd['rot']], reps=1, names='perdoc', spell='simple'),
             mirrorb(Batch(G_N3_ALL_WF, ['subdir', 'parent'], opts, [sd['rot']], reps=2, names='perdoc', spell='simple')),
             # the specification in memory is newer than what is stored at its location
-            staleb(Batch(G_N3_ALL_WF, ['sibling', 'subdir'], opts[:1], [sd['rot']], reps=1, names=sd['names'], spell=sd['spell'])),
+            staleb(Batch(G_N3_ALL_WF, ['sibling', 'subdir'], opts[:1], [sd['rot']], reps=1, names=sd['names'], spell='simple')),
             staleb(Batch(G_N4_IP_WF if ctx.seed % 2 else G_N4_IR_WF, ['sibling'], opts[:1], [sd['rot']], reps=1)),
             gadgetb(Batch(G_N4_SR_WF if ctx.seed % 2 else G_N4_SP_WF, ['subdir'], opts[:1], [sd['rot']], reps=2, names='perdoc', spell='simple')),
             Batch(('chain', 40), ['sibling'], opts, [sd['rot']], reps=1),
